@@ -23,7 +23,8 @@ U = 21845
 NPAR = 8
 OFF = 1                     # env step i (1-based) happens at quiescence i + OFF (quiescence 1 = after the handshake)
 SYS = ("repoll", "conn_recv", "conn_pop")
-DEFAULT_CFGS = ["MC_Tasks_export.cfg", "MC_Tasks_export_open.cfg", "MC_Tasks_export_recv.cfg", "MC_Tasks_export_end.cfg", "MC_Tasks_export_push.cfg"]
+DEFAULT_CFGS = ["MC_Tasks_export.cfg", "MC_Tasks_export_open.cfg", "MC_Tasks_export_recv.cfg", "MC_Tasks_export_end.cfg", "MC_Tasks_export_push.cfg",
+                "MC_Tasks_export_server.cfg"]
 PARKING = ("poll_capacity", "poll_reset", "poll_ready", "poll_response", "poll_data", "poll_trailers", "poll_push")
 
 
@@ -80,24 +81,32 @@ def norm_ev(e):
     return ("api", kind, x, call, res, 0)
 
 
-KIND = {"cw": "W", "cr": "R", "cb": "R", "cp": "P", "cy": "SR"}
+KIND = {"cw": "W", "cr": "R", "cb": "R", "cp": "P", "cy": "SR", "sw": "W", "sb": "R"}
 
 
-def norm_sim(e):
+def task_of(name):
+    """simulator task name -> (kind, model stream id)"""
+    m = re.match(r"(cw|cr|cb|cp|cy|sw|sb)(\d+)$", name)
+    if not m: return None
+    n = int(m.group(2))
+    return KIND[m.group(1)], (n if m.group(1) in ("sw", "sb") else sid_of_tag(n))
+
+
+def norm_sim(e, ep="c"):
     """a simulator event -> comparable tuple (None: not compared)"""
     if e["t"] == "out":
-        if e["ep"] != "c": return None
+        if e["ep"] != ep: return None
         f = e["f"]
         if f["ty"] == "DATA": return ("out", "DATA", f["sid"], f["dlen"], f["es"])
         if f["ty"] == "HEADERS": return ("out", "HEADERS", f["sid"], 0, f["es"])
         if f["ty"] == "RST_STREAM": return ("out", "RST_STREAM", f["sid"], f["cl"], False)
         if f["ty"] == "WINDOW_UPDATE": return ("out", "WINDOW_UPDATE", f["sid"], f["inc"], False)
         return None                                       # SETTINGS / ACK / GOAWAY at the very end
-    if e["t"] != "api" or e.get("census") or e["ep"] != "c": return None
-    m = re.match(r"(cw|cr|cb|cp|cy)(\d+)$", e["task"])
-    if not m: return None
-    kind, tag, call, res = KIND[m.group(1)], int(m.group(2)), e["call"], e["res"]
-    x = sid_of_tag(tag)
+    if e["t"] != "api" or e.get("census") or e["ep"] != ep: return None
+    if e["task"] == "conn_s" and e["call"] == "accept": return ("api", "W", e["sid"], "accept", "some", 0)
+    tk = task_of(e["task"])
+    if tk is None: return None
+    (kind, x), call, res = tk, e["call"], e["res"]
     if call == "send_request": return ("api", "W", x, call, res, 0)
     if call == "reserve": return ("api", kind, x, call, res, e["n"])
     if call == "send_data": return ("api", kind, x, call, res, e["n"])
@@ -109,7 +118,7 @@ def norm_sim(e):
     if call == "poll_push": return ("api", kind, x, call, res, e["psid"] if res == "some" else 0)
     if call == "poll_ready": return ("api", "SR", 0 if res != "pending" else x, call, res, 0)
     if call == "drop_resp": return ("api", "R", x, "drop_recv", "ok", 0)
-    if call in ("poll_response", "poll_trailers", "drop_send", "drop_recv", "drop_push"): return ("api", kind, x, call, res, 0)
+    if call in ("poll_response", "poll_trailers", "drop_send", "drop_recv", "drop_push", "send_response"): return ("api", kind, x, call, res, 0)
     return None                                           # hold_push, capacity, ...
 
 
@@ -149,12 +158,18 @@ def to_scenario(b, name):
         g["q"] = k + 1 + OFF
     last = len(groups) + OFF + 3
     hold = {"op": "wait_q", "k": last}
+    server = b.get("server", False)
+    order = []                                   # server: accept order
     reqs, peer, env = {}, [{"k": "wait_q"}, {"k": "auto"}], []
     rscript, rstart, rdrop_head, rpush = {}, {}, {}, {}
     for k, g in enumerate(groups):
         a, q = g["a"], g["q"]
         ps = {"k": "auto"}
-        if a[0] == "request":
+        if a[0] == "accept":
+            reqs[a[1]] = {"ops": [], "read": {}}; order.append(a[1])
+            env.append({"at": "q", "n": q, "op": {"k": "conn", "ep": 1, "op": "accept_allow", "n": 1}})
+        elif a[0] == "send_response": reqs[a[1]]["ops"] += [{"op": "wait_q", "k": q}, {"op": "response", "status": 200, "hid": 0, "eos": a[2]}]
+        elif a[0] == "request":
             x, eos, keep = a[1], a[2], a[3]
             rp = {"tag": tag_of(x), "method": "POST", "hid": 0, "eos": eos, "ready": False, "start_q": q, "ops": [], "read": {}}
             if keep:
@@ -177,10 +192,11 @@ def to_scenario(b, name):
             x, h = a[1], a[2]
             if h == "send": reqs[x]["ops"] += [{"op": "wait_q", "k": q}, {"op": "drop"}]
             elif h == "recv":
-                if x in rstart or x % 2 == 0: rscript.setdefault(x, []).extend([{"op": "wait_q", "k": q}, {"op": "drop"}])
+                if x in rstart or x % 2 == 0 or server: rscript.setdefault(x, []).extend([{"op": "wait_q", "k": q}, {"op": "drop"}])
                 else: rstart[x] = q; rdrop_head[x] = True
             elif h == "push": pass
         elif a[0] == "hold_push": rstart.setdefault(a[1], q); rpush[a[1]] = True
+        elif a[0] == "drop_sr": env.append({"at": "q", "n": q, "op": {"k": "drop_sr"}})
         elif a[0] == "peer":
             f = a[1]; ty, x, n = f["ty"], f["sid"], f["n"]
             hdr = lambda sid, eos, status, fields: {"k": "headers", "sid": sid, "hid": 0, "fields": fields, "eos": eos, "frag": 0, "huff": False,
@@ -194,7 +210,9 @@ def to_scenario(b, name):
             elif ty == "RST": ps = {"k": "rst", "sid": x, "code": f["code"]}
             elif ty == "PP": ps = {"k": "push_promise", "sid": x, "promised": n, "hid": 0, "fields": [], "frag": 0, "tag": tag_of(n)}
             elif ty == "GOAWAY": ps = {"k": "goaway", "last": n, "code": f["code"], "dbg": 0}
-            elif ty == "EOF": env.append({"at": "q", "n": q, "op": {"k": "fault", "ep": 0, "kind": "eof"}})
+            elif ty == "REQ": ps = {"k": "headers", "sid": x, "hid": 0, "fields": [], "eos": f["eos"], "frag": 0, "huff": False, "status": 0, "req": True,
+                                    "method": "POST", "tag": x}
+            elif ty == "EOF": env.append({"at": "q", "n": q, "op": {"k": "fault", "ep": 1 if server else 0, "kind": "eof"}})
             else: raise SystemExit("unknown frame %r" % (f,))
         else:
             raise SystemExit("unknown action %r" % (a,))
@@ -202,7 +220,7 @@ def to_scenario(b, name):
     for _ in range(4):
         peer += [{"k": "wait_q"}, {"k": "auto"}]
     rl = []
-    for x in sorted(reqs):
+    for x in ([] if server else sorted(reqs)):
         rp = reqs[x]
         rp["ops"].append(hold)
         rd = {"start_q": rstart.get(x, last), "script": rscript.get(x, []) + [hold]}
@@ -210,7 +228,15 @@ def to_scenario(b, name):
         if rpush.get(x): rd["push"] = True
         rp["read"] = rd
         rl.append(rp)
-    scn = {"name": name, "mode": "Bc",
+    if server:
+        srv = [{"ops": reqs[x]["ops"] + [hold], "read": {"script": rscript.get(x, []) + [hold]}} for x in order]
+        scn = {"name": name, "mode": "Bs",
+               "scfg": {"max_frame": 65536, "iws": b["recvwin"] * U, "conn_win": b["recvwin"] * U, "max_conc": 10},
+               "srv_accept_budget": 0,
+               "peer_cfg": {"settings": [[4, b["initwin"] * U], [5, 65536]], "ack_settings": True, "ack_ping": True, "grant": "none", "respond": False},
+               "srv": srv, "peer": peer, "env": env, "sched": {"seed": 1, "then": "fifo"}, "coop": False}
+    else:
+      scn = {"name": name, "mode": "Bc",
            "ccfg": {"max_frame": 65536, "iws": b["recvwin"] * U, "conn_win": b["recvwin"] * U, "enable_push": True},
            "peer_cfg": {"settings": [[3, b["maxsend"]], [4, b["initwin"] * U], [5, 65536]], "ack_settings": True, "ack_ping": True,
                         "grant": "none", "respond": False},
@@ -225,18 +251,25 @@ def to_scenario(b, name):
     return scn, exp
 
 
-def compare(exp, events):
+def compare(exp, events, ep="c"):
     drift, per_q, cur, panics = [], {}, [], []
     for e in events:
         t = e["t"]
         if t == "q":
-            per_q[e["n"]] = {"ev": cur, "out": e["out"], "conn": e["conn"]["c"]}
+            per_q[e["n"]] = {"ev": cur, "out": e["out"], "conn": e["conn"][ep]}
             cur = []
         elif t in ("panic", "drop_panic"):
-            panics.append(e.get("msg", "")[:200])
+            # (h2's Store::drop debug assertion at teardown = known finding F9 / F19 of known_findings.json: no waker involved)
+            if not (t == "drop_panic" and "self.slab.is_empty()" in e.get("msg", "")):
+                panics.append(e.get("msg", "")[:200])
+            else:
+                # the assertion fired inside the drop of the store's last handle, before the task could log its drop event
+                tk = task_of(e.get("at", ""))
+                if tk: cur.append(("api", tk[0], tk[1], {"W": "drop_send", "R": "drop_recv", "P": "drop_push"}.get(tk[0], "drop"), "ok", 0))
         else:
-            n = norm_sim(e)
-            if n is not None: cur.append(n)
+            n = norm_sim(e, ep)
+            # (server: the response writer logs drop_send for the SendStream and again for the SendResponse: one drop in the model)
+            if n is not None and not (n[3:4] == ("drop_send",) and ep == "s" and n in cur): cur.append(n)
     for x in exp:
         step = {"q": x["q"], "a": x["a"]}
         got = per_q.get(x["q"] + 1)            # the effects of what happened at quiescence q are complete at quiescence q + 1
@@ -249,10 +282,10 @@ def compare(exp, events):
             drift.append(dict(step, what="calls / frames: only code %s only model %s" % (only_code, only_model)))
         gp = []
         for o in got["out"]:
-            m = re.match(r"(cw|cr|cb|cp|cy)(\d+)$", o["task"])
-            if m and o["op"] in PARKING:
-                gp.append((KIND[m.group(1)], sid_of_tag(int(m.group(2))), o["op"]))
-            elif o["ep"] == "c":
+            tk = task_of(o["task"])
+            if tk and o["op"] in PARKING:
+                gp.append((tk[0], tk[1], o["op"]))
+            elif o["ep"] == ep:
                 gp.append(("?", o["task"], o["op"]))
         gp = sorted(gp)
         wp = [tuple(v) for v in x["parked"]]
@@ -298,10 +331,11 @@ def main():
         b1, s1, m1 = tlc_behaviours(max(1, num // len(cfgs)), seed + i, outdir, c)
         for b in b1: b["cfg"] = c
         behs += b1; states += s1; mv = mv or m1
-    scn_path = os.path.join(outdir, "conform_tasks.scn"); exps, scns = {}, []
+    scn_path = os.path.join(outdir, "conform_tasks.scn"); exps, scns, servers = {}, [], set()
     for i, b in enumerate(behs):
         name = "conformTasks-%d-%d" % (seed, i)
         scn, exp = to_scenario(b, name); exps[name] = exp; scns.append(scn)
+        if b.get("server"): servers.add(name)
         if corrupt:      # binding experiment: the model "wakes" one task that really stays parked (its last parked entry is removed)
             for x in reversed(exp):
                 if x["parked"]:
@@ -333,7 +367,7 @@ def main():
             os.remove(pj); os.remove(tj)
     drifts, conformant, steps = [], 0, 0
     for name, exp in exps.items():
-        d = compare(exp, runs.get(name, [])); steps += len(exp)
+        d = compare(exp, runs.get(name, []), "s" if name in servers else "c"); steps += len(exp)
         if d: drifts.append({"run": name, "drift": d[:6]})
         else: conformant += 1
     nact = {}
